@@ -78,6 +78,21 @@ class Ctx:
         self.tracked = []            # (array, snapshot, label)
         self.used = []               # pool entries used
         self.alias_obs = []          # (query, tree, observed) for the Coq aliasing functions
+        self.layout = None           # force an operand layout (alias sweep)
+        self.force = None            # force the pool entry (alias sweep)
+        self.wrong = []              # products that disagree with the independent dense oracle
+
+    def check_product(self, e, got, want_fn, what):
+        """independent oracle (numpy on the dense matrix of the tree, integers: exact): the product of a pool operator
+        with the operand as it was BEFORE the call"""
+        try:
+            import trees as T
+            want = want_fn(T.dense(e["tree"]))
+            g = np.asarray(got).astype(np.complex128)
+            if g.shape != want.shape or not np.array_equal(g, want):
+                self.wrong.append(dict(clause=f"{what} is not the represented matrix times the operand (as it was before the call)", tree=e["tree"]))
+        except Exception as ex:
+            self.wrong.append(dict(clause=f"{what}: oracle comparison raised {type(ex).__name__}: {ex}", tree=e["tree"]))
 
     def track(self, a, label):
         self.tracked.append((a, snap(a), label))
@@ -85,6 +100,10 @@ class Ctx:
 
     def pick(self, pred=lambda e: True, derived_ok=True):
         """an operator: a pool entry (returned with its entry) or a derived one"""
+        if self.force is not None:
+            if self.force not in self.used:
+                self.used.append(self.force)
+            return self.force["op"], self.force
         cands = [e for e in self.pool if pred(e["op"])]
         dcands = [d for d in self.derived if pred(d)] if derived_ok else []
         if not cands and not dcands:
@@ -96,13 +115,27 @@ class Ctx:
             self.used.append(e)
         return e["op"], e
 
-    def operand(self, rows, cols=None, dtype=None, label="X"):
+    def operand(self, rows, cols=None, dtype=None, label="X", layout=None, nonzero=False):
+        """a caller-owned operand; layout: 'C' contiguous, 'F' Fortran order (transposed view of a C array),
+        'strided' every second row/entry of a larger caller-owned buffer (the buffer is tracked as well)"""
         r = self.rnd
         shape = (rows,) if cols is None else (rows, cols)
         a = np.array([r.randint(-3, 3) for _ in range(int(np.prod(shape)))], dtype=np.float64).reshape(shape)
         if dtype is not None and np.dtype(dtype).kind == "c":
             a = a + 1j * np.array([r.randint(-2, 2) for _ in range(a.size)], dtype=np.float64).reshape(shape)
         a = a.astype(dtype or np.float64)
+        if nonzero:
+            a[(0,) * a.ndim] += 5          # never the zero vector
+        layout = layout or self.layout or r.choice(["C", "C", "F", "strided"])
+        if layout == "F" and a.ndim == 2:
+            base = np.ascontiguousarray(a.T)
+            self.track(base, label + "(buffer)")
+            a = base.T
+        elif layout == "strided":
+            base = np.zeros((2 * shape[0],) + shape[1:], dtype=a.dtype)
+            base[::2] = a
+            self.track(base, label + "(buffer)")
+            a = base[::2]
         return self.track(a, label)
 
 
@@ -132,11 +165,13 @@ def _mk_alphabet():
     def _(c):
         A, e = c.pick()
         X = c.operand(A.shape[1], c.rnd.randint(1, 3), A.dtype)
+        X0 = X.copy()
 
         def call():
             Y = A @ X
             if e is not None:
                 c.alias_obs.append(("QMatmat", e["tree"], bool(np.shares_memory(Y, X))))
+                c.check_product(e, Y, lambda Dn: Dn @ X0, "A @ X")
             return Y
         return call
 
@@ -144,17 +179,27 @@ def _mk_alphabet():
     def _(c):
         A, e = c.pick()
         v = c.operand(A.shape[1], None, A.dtype, "v")
-        return lambda: A @ v
+        v0 = v.copy()
+
+        def call():
+            y = A @ v
+            if e is not None:
+                c.alias_obs.append(("QMatmat", e["tree"], bool(np.shares_memory(y, v))))
+                c.check_product(e, y, lambda Dn: Dn @ v0, "A @ v")
+            return y
+        return call
 
     @op("rmatmat")
     def _(c):
         A, e = c.pick()
         X = c.operand(c.rnd.randint(1, 3), A.shape[0], A.dtype)
+        X0 = X.copy()
 
         def call():
             Y = X @ A
             if e is not None:
                 c.alias_obs.append(("QRmatmat", e["tree"], bool(np.shares_memory(Y, X))))
+                c.check_product(e, Y, lambda Dn: X0 @ Dn, "X @ A")
             return Y
         return call
 
@@ -349,9 +394,7 @@ def _mk_alphabet():
         A, _ = c.pick(lambda M: small_sq(M))
         if A is None:
             return None
-        b = c.operand(A.shape[0], None, A.dtype, "b")
-        b[0] += 5
-        c.tracked[-1] = (b, snap(b), "b")
+        b = c.operand(A.shape[0], None, A.dtype, "b", nonzero=True)
         x0 = c.operand(A.shape[0], None, A.dtype, "x0")
         mi = c.rnd.randint(1, 3)
         return lambda: gmres(A, b, x0=x0, max_iters=mi)
@@ -377,9 +420,7 @@ def _mk_alphabet():
         A, _ = c.pick(lambda M: small_sq(M))
         if A is None:
             return None
-        v = c.operand(A.shape[0], None, A.dtype, "start")
-        v[0] += 5           # never the zero vector
-        c.tracked[-1] = (v, snap(v), "start")
+        v = c.operand(A.shape[0], None, A.dtype, "start", nonzero=True)
         mi = c.rnd.randint(1, 4)
         return lambda: lanczos(A, start_vector=v, max_iters=mi)
 
@@ -388,9 +429,7 @@ def _mk_alphabet():
         A, _ = c.pick(lambda M: small_sq(M))
         if A is None:
             return None
-        v = c.operand(A.shape[0], None, A.dtype, "start")
-        v[0] += 5
-        c.tracked[-1] = (v, snap(v), "start")
+        v = c.operand(A.shape[0], None, A.dtype, "start", nonzero=True)
         mi = c.rnd.randint(1, 4)
         return lambda: arnoldi(A, start_vector=v, max_iters=mi)
 
@@ -432,11 +471,12 @@ ALPHABET = _mk_alphabet()
 NAMES = sorted(ALPHABET)
 
 
-def run_sequence(names, pool, rnd, check_all_pool=False):
+def run_sequence(names, pool, rnd, check_all_pool=False, force=None, layout=None):
     """returns dict(violations=[...], errors={step: exception class}, inapplicable, alias_obs)"""
     logging.disable(logging.WARNING)
     c = Ctx(rnd, pool)
-    for e in pool:                                   # caller-owned arrays the pool operators were built from
+    c.force, c.layout = force, layout
+    for e in (pool if force is None or any(force is x for x in pool) else pool + [force]):   # caller-owned arrays the operators were built from
         for i, a in enumerate(e["arrays"]):
             c.tracked.append((a, e["snaps"][i], "pool"))
     viol, errors, thunks, first = [], {}, [], []
@@ -492,5 +532,7 @@ def run_sequence(names, pool, rnd, check_all_pool=False):
     for a, s0, label in c.tracked:
         if snap(a) != s0:
             viol.append(dict(clause="caller-owned array modified (during repetition)", array=label))
+    for w in c.wrong:
+        viol.append(dict(ops=list(names), **w))
     logging.disable(logging.NOTSET)
     return dict(violations=viol, errors=errors, inapplicable=inapplicable, alias_obs=c.alias_obs)
